@@ -39,6 +39,11 @@ AlphaQ       == {"a", ".", "[", "]", "-", "!"}
 LitQ         == {"-", "]", "!"}
 CollMacros   == {"[.-.]", "[.^.]", "[.].]", "[=a=]"}
 AlphaClass   == {"a", "1", "-", "[", "]", "!"}
+\* characters that are operators of the regular-expression language only
+AlphaSet     == {"a", "&", "~", "-", "[", "]", "!"}
+StrSet       == {"a", "&", "~", "-"}
+AlphaRegex   == {"a", "+", "(", ")", "|", "{", "}", "$", "*", "?"}
+StrRegex     == {"a", "+", "(", ")", "|", "$", "{", "}", "\n"}
 StrFull      == {"a", "b", ".", "-", "]", "^"}
 StrSmall     == {"a", ".", "-", "]"}
 StrTiny      == {"a", ".", "-"}
